@@ -5,6 +5,15 @@ def main(pid, path):
     rec = json.load(open(path))
     nat.build_driver(('dev', 'release'))
     rc = 0
+    if rec['request'].get('op') == 'cli':          # C18: the real jp binary vs the library in-process
+        from harness import c18
+        for prof in ('dev', 'release'):
+            a = c18.run_jp(rec['request'], prof); n = nat.Native(prof)
+            lib = n.request({'op': 'cli_oracle', 'expr': rec['request']['expr'], 'json': rec['request']['json'], 'unquoted': rec['request']['unquoted'], 'ast': rec['request']['ast']}); n.close()
+            print(f'[{prof}] invocation={json.dumps(rec["request"])[:400]}')
+            print(f'[{prof}] jp={json.dumps(a)[:600]}')
+            print(f'[{prof}] library={json.dumps(lib)[:600]}  verdict={c18.native_verdict(rec["request"], a, lib)}')
+        return 0
     for prof in ('dev', 'release'):
         n = nat.Native(prof); obs = n.request(rec['request']); n.close()
         print(f'[{prof}] request={json.dumps(rec["request"])[:300]}')
